@@ -124,6 +124,23 @@ Theorem C19_tri_points_spec : forall t q, tri_ok t ->
    exists a b, In (P a (py q)) (tri_fill_edges t) /\ In (P b (py q)) (tri_fill_edges t) /\ a <= px q <= b).
 Proof. exact tri_points_spec. Qed.
 
+(* what tri_ok is for: inside it (and for the points inside the bounding box, the only ones for which contains() gets that
+   far) every product and partial sum of area_doubled, of the barycentric s and t, and s + t fits an i32 (fits_i32) *)
+Theorem C19_tri_range_no_overflow : forall t p, tri_ok t -> contains (tri_bounding_box t) p = true ->
+  let x1 := px (v1 t) in let y1 := py (v1 t) in let x2 := px (v2 t) in let y2 := py (v2 t) in
+  let x3 := px (v3 t) in let y3 := py (v3 t) in let qx := px p in let qy := py p in
+  fits_i32 ((- y2) * x3) /\ fits_i32 (y1 * (x3 - x2)) /\ fits_i32 ((- y2) * x3 + y1 * (x3 - x2)) /\
+  fits_i32 (x1 * (y2 - y3)) /\ fits_i32 ((- y2) * x3 + y1 * (x3 - x2) + x1 * (y2 - y3)) /\
+  fits_i32 (x2 * y3) /\ fits_i32 (area_doubled t) /\
+  fits_i32 (y1 * x3) /\ fits_i32 (x1 * y3) /\ fits_i32 (y1 * x3 - x1 * y3) /\
+  fits_i32 ((y3 - y1) * qx) /\ fits_i32 (y1 * x3 - x1 * y3 + (y3 - y1) * qx) /\
+  fits_i32 ((x1 - x3) * qy) /\ fits_i32 (y1 * x3 - x1 * y3 + (y3 - y1) * qx + (x1 - x3) * qy) /\
+  fits_i32 (x1 * y2) /\ fits_i32 (y1 * x2) /\ fits_i32 (x1 * y2 - y1 * x2) /\
+  fits_i32 ((y1 - y2) * qx) /\ fits_i32 (x1 * y2 - y1 * x2 + (y1 - y2) * qx) /\
+  fits_i32 ((x2 - x1) * qy) /\ fits_i32 (x1 * y2 - y1 * x2 + (y1 - y2) * qx + (x2 - x1) * qy) /\
+  fits_i32 (y1 * x3 - x1 * y3 + (y3 - y1) * qx + (x1 - x3) * qy + (x1 * y2 - y1 * x2 + (y1 - y2) * qx + (x2 - x1) * qy)).
+Proof. exact tri_no_overflow. Qed.
+
 (* non-vacuity: a triangle with a shallow and a steep edge, given in two orders; a colinear one *)
 Example C19_tri_example :
   tri_ok (T (P 0 0) (P 5 2) (P 1 4)) /\ area_doubled (T (P 0 0) (P 5 2) (P 1 4)) = 18 /\
